@@ -25,9 +25,20 @@ ErrTexts == {<<35, 78, 47, 65>>,                         \* #N/A
 StartsWith(s, c) == s # <<>> /\ s[1] = c
 
 \* ---- export ----------------------------------------------------------------
-\* a string from_dict would not read as plain text
-IsFormula(x) == StartsWith(x, EQ) /\ Len(x) >= 2          \* "=" and something after it
-ReadsAsOther(x) == IsFormula(x) \/ x \in ErrTexts \/ UpperS(x) = HASH_EMPTY
+\* a string from_dict would not read as plain text.  Cell.__init__ looks past leading
+\* white space, takes {= as the start of an array formula, and takes an error name that
+\* is qualified by a sheet name (Data!#N/A) for the error value too.
+RECURSIVE Lead(_)
+Lead(x) == IF x # <<>> /\ Head(x) \in {32, 9} THEN Lead(Tail(x)) ELSE x
+IsFormula(x) ==
+  LET y == Lead(x)
+  IN \/ StartsWith(y, EQ) /\ Len(y) >= 2                  \* "=" and something after it
+     \/ StartsWith(y, 123) /\ Len(y) >= 3 /\ y[2] = EQ     \* {=...
+IsErrText(x) ==
+  LET y == Lead(x)
+  IN \E i \in 1..Len(y) : /\ SubSeq(y, i, Len(y)) \in ErrTexts
+                            /\ (i = 1 \/ (i > 2 /\ y[i - 1] = 33))
+ReadsAsOther(x) == IsFormula(x) \/ IsErrText(x) \/ UpperS(x) = HASH_EMPTY
 
 RECURSIVE DoubleQuotes(_)
 DoubleQuotes(x) == IF x = <<>> THEN <<>>
@@ -50,9 +61,9 @@ ReadString(s, acc) ==     \* s: text after the opening quote; result [ok, txt, r
 
 ImportString(x) ==
   IF UpperS(x) = HASH_EMPTY THEN Blank
-  ELSE IF x \in ErrTexts THEN Err(IF x = <<35, 78, 47, 65>> THEN "NA" ELSE "NUM")
+  ELSE IF IsErrText(x) THEN [k |-> "some-error"]
   ELSE IF IsFormula(x) THEN
-     (IF x[2] = Q THEN
+     (IF x[1] = EQ /\ x[2] = Q THEN
         (LET r == ReadString(SubSeq(x, 3, Len(x)), <<>>)
          IN IF r.ok /\ r.rest = <<>> THEN Txt(r.txt) ELSE [k |-> "other-formula"])
       ELSE [k |-> "other-formula"])
